@@ -51,10 +51,10 @@ func init() {
 	seqTech := "deterministic simulation: seeded single-client operation sequences on the simulated disk under the cooperative scheduler; "
 	meta("C01", "exploration", seqTech+"reference-map oracle after every step; in a quarter of the runs the process may die between two operations (also inside a batch) and the history continues on the recovered database",
 		NontrivialRuleText["C01"], 16000, 400000,
-		[]string{"rotations", "writes_spanning_blocks", "writes_ending_near_boundary", "oversized_writes", "overwrites", "deletes_present", "batches", "merges", "restarts_after_merge"})
+		[]string{"rotations", "writes_spanning_blocks", "writes_ending_near_boundary", "oversized_writes", "overwrites", "deletes_present", "batches", "merges", "restarts_after_merge", "bulk_loads"})
 	meta("C02", "exploration", seqTech+"restart as a generated step with an independently drawn reader configuration; dump before Close == dump after Open",
 		NontrivialRuleText["C02"], 12000, 300000,
-		[]string{"restarts", "restart_config_changed", "restart_file_end_near_boundary", "restart_file_end_on_boundary", "restarts_after_merge", "batches", "rotations"})
+		[]string{"restarts", "restart_config_changed", "restart_file_end_near_boundary", "restart_file_end_on_boundary", "restarts_after_merge", "batches", "rotations", "bulk_loads"})
 	crashTech := "deterministic simulation with fault injection: the workload runs once on the journalling disk, then the directory is rebuilt as of every journal position (process crash) and, for a seeded subset, with unsynced file tails cut (power loss); the real Open runs on each image; "
 	meta("C03", "fault_enumeration", crashTech+"recovered dump must equal an allowed prefix state, and the recovered database must stay usable (a Put, fresh batches, a clean restart); 30% of the runs crash a database that 2..4 clients were using under the seeded scheduler (incl. a Merge racing one kind of writer): the recovered mapping must result from a real-time-respecting order of a downward-closed set of the begun operations that contains every operation that must have survived",
 		NontrivialRuleText["C03"], 2000, 30000,
@@ -95,14 +95,14 @@ func init() {
 		"I/O errors are injected only inside the merge side directory (the statement defines Merge's behaviour under an error; nothing defines the main data path's)")
 	meta("C10", "exploration", seqTech+"frozen sorted-slice cursor model for iterator sessions; Fold call-backs that overwrite and delete keys during the scan; 30% of the runs: iterators and Fold next to concurrent writers, snapshot isolation decided per key with porcupine",
 		NontrivialRuleText["C10"], 30000, 700000,
-		[]string{"iter_sessions_multi", "iter_seeks", "iter_rewinds", "iter_nexts", "iter_interleaved_writes", "lists", "folds"})
+		[]string{"iter_sessions_multi", "iter_seeks", "iter_rewinds", "iter_nexts", "iter_interleaved_writes", "lists", "folds", "bulk_loads", "fold_callback_writes", "conc_fold_snapshots"})
 	meta("C13", "exploration", seqTech+"unsynced-bytes invariants of the journalled disk model evaluated at every return; a fifth of the runs: 2..4 concurrent callers under the seeded scheduler, the policy judged per call on the journal (own writes flushed at return; unflushed bytes of returned calls below the threshold; Sync() covers what was written before its call); 30% of the sequential runs: the process dies between two operations and the policy is judged in the process that recovered the unclosed log",
 		NontrivialRuleText["C13"], 20000, 500000,
-		[]string{"always_checks", "threshold_checks", "sync_batch_checks", "all_synced_checks", "rotations_checked", "cc_syncs", "cc_batches"},
+		[]string{"always_checks", "threshold_checks", "sync_batch_checks", "all_synced_checks", "rotations_checked", "cc_syncs", "cc_batches", "fault_process_killed_between_operations"},
 		"for mmap files 'flushed' means covered by an msync issued after the store; msync makes the whole mapping durable")
 	meta("C14", "exploration", seqTech+"differential: one generated program executed under 2..4 configurations on separate simulated disks with the same simulated clock; transcripts (and bytes when the layout is equal) must be identical",
 		NontrivialRuleText["C14"], 8000, 120000,
-		[]string{"configs_compared", "byte_identical_layouts", "restarts", "batches", "iter_sessions", "rotations"},
+		[]string{"configs_compared", "byte_identical_layouts", "restarts", "batches", "iter_sessions", "rotations", "bulk_loads"},
 		"Stat sizes, DataFileNum and Merge's return value are excluded from the transcript when DataFileSize differs (they are layout)")
 	meta("C15", "exploration", seqTech+"hostile caller: one reused key buffer and one reused value buffer, poisoned after each return, canaries, kept Get results",
 		NontrivialRuleText["C15"], 25000, 350000,
@@ -110,10 +110,10 @@ func init() {
 		"pool-mediated aliasing is made reproducible by the deterministic LIFO replacement of sync.Pool")
 	meta("C17", "exploration", seqTech+"Stat recomputed at every step by scanning the files with the package's own reader; 15% of the runs: concurrent clients (puts, deletes, batches, a merge), Stat recomputed at quiescence and after the restart; 40% of the sequential runs: the process dies between two operations or inside a batch, Stat recomputed after the recovery",
 		NontrivialRuleText["C17"], 8000, 100000,
-		[]string{"stat_checks", "batches", "merges", "restarts", "oversized_files_ok", "rotations", "sched_switches"})
+		[]string{"stat_checks", "batches", "merges", "restarts", "oversized_files_ok", "rotations", "sched_switches", "bulk_loads", "fault_process_killed_inside_a_batch"})
 	meta("C18", "exploration", seqTech+"hint entries decoded and compared with a scan of the merged files; hint-path Open vs scan-path Open; a fifth of the runs: the merge races concurrent writers",
 		NontrivialRuleText["C18"], 8000, 100000,
-		[]string{"hint_checks", "hint_multi_file_output", "hint_vs_scan_opens", "conc_merges"})
+		[]string{"hint_checks", "hint_multi_file_output", "hint_vs_scan_opens", "conc_merges", "bulk_loads"})
 	meta("C16", "exploration", concTech+"parties are in-process opener tasks plus one real child process driven in lock-step over a pipe (the scheduler decides whose turn it is); Open/Close outcomes are checked with porcupine against a single-holder lock model; a janitor task damages and repairs an older data file so that Opens fail after taking the lock; rejected Opens must leave the journal / directory hash unchanged",
 		NontrivialRuleText["C16"], 4000, 120000,
 		[]string{"opens_ok", "opens_rejected", "opens_failed_other", "closes", "rejected_open_dir_unchanged", "rejected_open_dir_unchanged_peer", "holder_token_writes", "lock_history_checks", "final_opens", "fault_damage_older_file", "stale_closes", "holder_work_0"},
